@@ -1,2 +1,261 @@
-import FpgoVerif.Model.C19
-/-! Property theorems for C19 (none yet). -/
+import FpgoVerif.Proofs.C19Desc
+import FpgoVerif.Proofs.C19Heap
+import FpgoVerif.Proofs.C19Oracle
+/-! Property theorems for C19 — "Sorting yields an ordered, stable permutation; descriptors sort by key
+    list".  All statements are about the definitions of `Model/C19.lean` that the driver executes.
+
+    Standing assumption (see Model/C19.lean): `sort.SliceStable` is `sortBy` (= core `List.mergeSort`);
+    `C19_sort_unique` shows that for a strict weak order ANY ordered, stable permutation equals
+    `sortBy less l`, so the assumption is exactly "`sort.SliceStable` is a correct stable sort". -/
+namespace FpgoVerif.C19
+
+variable {α : Type}
+
+/-! ## (1) generic: `Sort`, `SortSlice`, `Stream.Sort`, `Stream.SortByIndex` -/
+
+/-- All comparator-based sort entry points of the library compute `sortBy fn input`
+    (in place / on a clone / via the index comparator), and the ones that work on a clone leave the
+    receiver's content as it was. -/
+theorem C19_api_is_sortBy (fn : α → α → Bool) (l : List α) :
+    sort fn l = sortBy fn l ∧ sortSlice fn l = sortBy fn l ∧
+    streamSort fn l = (sortBy fn l, l) ∧ streamSortByIndex fn l = (sortBy fn l, l) :=
+  ⟨rfl, rfl, rfl, rfl⟩
+
+/-- permutation (any comparator) -/
+theorem C19_sort_perm (less : α → α → Bool) (l : List α) : (sortBy less l).Perm l :=
+  sortBy_perm less l
+
+/-- ordered: no element precedes one that the comparator places strictly before it -/
+theorem C19_sort_ordered {less : α → α → Bool} (h : StrictWeak less) (l : List α) :
+    (sortBy less l).Pairwise (fun a b => less b a = false) :=
+  sortBy_pairwise h l
+
+/-- stable: each class of elements the comparator does not distinguish appears in its input order -/
+theorem C19_sort_stable {less : α → α → Bool} (h : StrictWeak less) (l : List α) (x : α) :
+    (sortBy less l).filter (equivBy less x) = l.filter (equivBy less x) :=
+  sortBy_filter_equiv h l x
+
+/-- stable, position form: tag every element with its input position; in the output, elements the
+    comparator does not distinguish appear with increasing input positions. -/
+theorem C19_sort_stable_positions {less : α → α → Bool} (h : StrictWeak less) (l : List α) :
+    (sortBy (fun p q : α × Nat => less p.1 q.1) l.zipIdx).Pairwise
+      (fun p q => equivBy less p.1 q.1 = true → p.2 < q.2) := by
+  have hl : StrictWeak (fun p q : α × Nat => less p.1 q.1) :=
+    ⟨fun a => h.irrefl a.1, fun a b c => h.trans, fun a b c => h.negTrans c.1⟩
+  have hidx : (l.zipIdx).Pairwise (fun p q : α × Nat => p.2 < q.2) := by
+    have := List.pairwise_lt_range (n := l.length)
+    rw [List.pairwise_iff_getElem] at this ⊢
+    intro i j hi hj hij
+    simp at hi hj
+    simp [hij]
+  rw [List.pairwise_iff_forall_sublist]
+  intro p q hsub he
+  have hs := hsub.filter (equivBy (fun p q : α × Nat => less p.1 q.1) p)
+  rw [sortBy_filter_equiv hl] at hs
+  have e1 : equivBy (fun p q : α × Nat => less p.1 q.1) p p = true := equivBy_refl hl p
+  have e2 : equivBy (fun p q : α × Nat => less p.1 q.1) p q = true := he
+  rw [List.filter_cons_of_pos e1, List.filter_cons_of_pos e2, List.filter_nil] at hs
+  have := (hs.trans List.filter_sublist)
+  exact (List.pairwise_iff_forall_sublist.mp hidx) this
+
+/-- uniqueness: an ordered, stable permutation of `l` IS `sortBy less l` — any correct stable sort
+    (in particular `sort.SliceStable`) agrees with the model. -/
+theorem C19_sort_unique {less : α → α → Bool} (h : StrictWeak less) (l r : List α)
+    (hperm : r.Perm l) (hord : r.Pairwise (fun a b => less b a = false))
+    (hstable : ∀ x, r.filter (equivBy less x) = l.filter (equivBy less x)) :
+    r = sortBy less l :=
+  stable_sorted_unique h r (sortBy less l) (hperm.trans (sortBy_perm less l).symm) hord
+    (sortBy_pairwise h l) (fun x => (hstable x).trans (sortBy_filter_equiv h l x).symm)
+
+/-! ## (2) the comparators the library builds -/
+
+/-- `SortOrderedAscending` sorts by `<` : its comparator `CompareToOrdered(a, b) > 0` IS `a < b`. -/
+theorem C19_sortOrdered_asc {κ : Type} (lt : κ → κ → Bool) (l : List κ) :
+    sortOrderedAscending lt l = sortBy lt l ∧ sortOrdered lt true l = sortBy lt l := by
+  have : (fun a b => decide (compareToOrdered lt a b > 0)) = lt := by
+    funext a b
+    cases h : lt a b <;> cases h' : lt b a <;> simp [compareToOrdered, h, h']
+  simp [sortOrderedAscending, sortOrdered, sort, this]
+
+/-- `SortOrderedDescending` sorts by `>` : its comparator `CompareToOrdered(a, b) < 0` IS `b < a`
+    (for an asymmetric `<`, which Go's `<` on integers and strings is). -/
+theorem C19_sortOrdered_desc {κ : Type} {lt : κ → κ → Bool} (h : StrictWeak lt) (l : List κ) :
+    sortOrderedDescending lt l = sortBy (fun a b => lt b a) l ∧
+    sortOrdered lt false l = sortBy (fun a b => lt b a) l := by
+  have : (fun a b => decide (compareToOrdered lt a b < 0)) = (fun a b => lt b a) := by
+    funext a b
+    cases h1 : lt a b <;> cases h2 : lt b a <;> simp [compareToOrdered, h1, h2]
+    have := h.asymm h1; rw [h2] at this; cases this
+  simp [sortOrderedDescending, sortOrdered, sort, this]
+
+/-- Go's `<` on `int` and on `string` (bytewise lexicographic = core's order on byte lists) and the
+    natural order on keys are strict weak orders, so (1) applies to `SortOrdered*`. -/
+theorem C19_natural_orders_strictWeak :
+    StrictWeak intLt ∧ StrictWeak bytesLt ∧ StrictWeak Key.lt ∧
+    (∀ a b : List Nat, bytesLt a b = true ↔ a < b) := by
+  refine ⟨⟨fun a => by simp [intLt], fun a b c => by simp [intLt]; omega, fun a b c => by simp [intLt]; omega⟩,
+    ⟨bytesLt_irrefl, bytesLt_trans, fun a b c hab => ?_⟩, ⟨Key.lt_irrefl, Key.lt_trans, fun a b c hab => ?_⟩,
+    bytesLt_iff_lt⟩
+  · rcases bytesLt_trichotomy a c with e | e | e
+    · subst e; exact .inr (by
+        rcases bytesLt_trichotomy a b with e | e | e
+        · subst e; rw [bytesLt_irrefl] at hab; cases hab
+        · exact e
+        · rw [bytesLt_asymm hab] at e; cases e)
+    · exact .inl e
+    · exact .inr (bytesLt_trans _ _ _ e hab)
+  · rcases Key.lt_trichotomy a c with e | e | e
+    · subst e; exact .inr hab
+    · exact .inl e
+    · exact .inr (Key.lt_trans _ _ _ e hab)
+
+/-- Both `CompareTo` implementations (`ComparableOrdered[T]`, `ComparableString`) follow one sign
+    convention: negative / zero / positive iff the receiver is naturally before / equal to / after the
+    argument.  (The pinned commit had `ComparableOrdered` the other way round.) -/
+theorem C19_compareTo_sign (a b : Key) :
+    (a.compareTo b < 0 ↔ a.lt b = true) ∧ (a.compareTo b = 0 ↔ a = b) ∧ (a.compareTo b > 0 ↔ b.lt a = true) := by
+  rcases Key.lt_trichotomy a b with h | h | h
+  · subst h; simp [Key.compareTo_self, Key.lt_irrefl]
+  · have hne : a ≠ b := by intro e; subst e; rw [Key.lt_irrefl] at h; cases h
+    simp [Key.compareTo_of_lt h, h, Key.lt_asymm h, hne]
+  · have hne : a ≠ b := by intro e; subst e; rw [Key.lt_irrefl] at h; cases h
+    simp [Key.compareTo_of_gt h, h, Key.lt_asymm h, hne]
+
+/-- The comparator of `SortBySortDescriptors` — the mirrored recursion of
+    `_compareBySortDescriptors(…) < 0` incl. nil keys, direction and tie-break recursion — IS the
+    lexicographic order by the descriptors' keys: natural order (nil first) for an ascending
+    descriptor, reversed for a descending one, later descriptors breaking ties of earlier ones; for
+    every mix of `ComparableOrdered[int]`, `ComparableOrdered[string]` and `ComparableString` keys. -/
+theorem C19_desc (ds : List (Desc α)) (x y : α) : descLess ds x y = lexLt ds x y := by
+  rw [descLess_eq_lexLt]
+
+/-- … and it is a strict weak order, so (1) applies to the descriptor sorts. -/
+theorem C19_desc_strictWeak (ds : List (Desc α)) : StrictWeak (descLess ds) := by
+  rw [descLess_eq_lexLt]; exact lexLt_strictWeak ds
+
+/-- per key kind, one descriptor: an ascending `ComparableOrdered[int]` descriptor compares by `<`,
+    a descending one by `>`; likewise `ComparableString` with the bytewise string order. -/
+theorem C19_desc_single (f : α → Int) (g : α → List Nat) (x y : α) :
+    descLess [⟨fun r => some (.oi (f r)), true⟩] x y = decide (f x < f y) ∧
+    descLess [⟨fun r => some (.oi (f r)), false⟩] x y = decide (f y < f x) ∧
+    descLess [⟨fun r => some (.cs (g r)), true⟩] x y = bytesLt (g x) (g y) ∧
+    descLess [⟨fun r => some (.cs (g r)), false⟩] x y = bytesLt (g y) (g x) ∧
+    descLess [⟨fun r => some (.os (g r)), true⟩] x y = bytesLt (g x) (g y) ∧
+    descLess [⟨fun r => some (.os (g r)), false⟩] x y = bytesLt (g y) (g x) := by
+  simp [C19_desc, lexLt, Desc.keyLt, optLt, Key.lt]
+
+/-- The pinned commit's comparator (result of `CompareTo` discarded, `>= 0`) answers "less" for an
+    element against itself — it is not irreflexive, hence no strict weak order, for every descriptor
+    stack: the contract of `sort.SliceStable` is broken on every input. -/
+theorem C19_pinned_refuted (d : Desc α) (rest : List (Desc α)) (x : α) :
+    descLessPinned (d :: rest) x x = true ∧ ¬ StrictWeak (descLessPinned (d :: rest)) := by
+  have h0 : ∀ (rest : List (Desc α)) (d : Desc α), compareBySortDescriptorsPinned d rest x x = 0 := by
+    intro rest
+    induction rest with
+    | nil => intro d; cases hk : d.key x <;> simp [compareBySortDescriptorsPinned, hk]
+    | cons d' rest' ih => intro d; cases hk : d.key x <;> simp [compareBySortDescriptorsPinned, hk, ih d']
+  have h1 : descLessPinned (d :: rest) x x = true := by simp [descLessPinned, h0]
+  exact ⟨h1, fun hsw => by have := hsw.1 x; rw [h1] at this; cases this⟩
+
+/-! ## (3) the descriptor sorts, composed -/
+
+/-- `SortedListBySortDescriptors` / `ToSortedList`: the result is a permutation of the input, ordered
+    lexicographically by the descriptors' keys, stable, and the input is left as it was. -/
+theorem C19_sortedList (ds : List (Desc α)) (l : List α) :
+    let (r, after) := sortedListBySortDescriptors ds l
+    r.Perm l ∧ r.Pairwise (fun a b => lexLt ds b a = false) ∧
+    (∀ x, r.filter (equivBy (lexLt ds) x) = l.filter (equivBy (lexLt ds) x)) ∧ after = l := by
+  rw [sortedListBySortDescriptors_eq, descLess_eq_lexLt]
+  exact ⟨sortBy_perm _ l, sortBy_pairwise (lexLt_strictWeak ds) l,
+    sortBy_filter_equiv (lexLt_strictWeak ds) l, rfl⟩
+
+/-- "without modifying the input", at the level of slices and backing arrays: for ANY heap and any
+    well-formed caller slice, `result := append(input[:0:0], input...)` + in-place sort leaves every
+    slice of every pre-existing backing array (the caller's `input` and all its aliases) reading as
+    before, and the returned slice holds the sorted copy. -/
+theorem C19_sortedList_heap (ds : List (Desc α)) (h : Heap α) (input : Slice)
+    (hwf : input.off + input.len ≤ (h.getD input.arr []).length) :
+    (sortedListH ds h input).1.read (sortedListH ds h input).2 = sortBy (descLess ds) (h.read input) ∧
+    ∀ s' : Slice, s'.arr < h.length → (sortedListH ds h input).1.read s' = h.read s' :=
+  sortedListH_spec ds h input hwf
+
+/-- the capacity in `input[:0:0]` matters: with `input[:0]` the "copy" aliases the input and the
+    caller's slice is sorted in place (a concrete heap). -/
+theorem C19_alias_variant_modifies_input :
+    let ds : List (Desc Int) := [⟨fun r => some (.oi r), true⟩]
+    let input : Slice := ⟨0, 0, 2, 2⟩
+    (sortedListAliasH ds [[2, 1]] input).1.read input = [1, 2] ∧ Heap.read [[2, 1]] input = [2, 1] := by
+  simp [sortedListAliasH, Heap.append, Slice.emptyKeepCap, Heap.read, Heap.write, sortH, sort, descLess_eq_lexLt,
+    sortBy, List.mergeSort, List.MergeSort.Internal.splitInTwo, lexLt, Desc.keyLt, optLt, Key.lt]
+
+/-- `SortBySortDescriptors` / `builder.Sort`: the same, in place. -/
+theorem C19_sortInPlace (ds : List (Desc α)) (l : List α) :
+    let r := sortBySortDescriptors ds l
+    r.Perm l ∧ r.Pairwise (fun a b => lexLt ds b a = false) ∧
+    (∀ x, r.filter (equivBy (lexLt ds) x) = l.filter (equivBy (lexLt ds) x)) := by
+  simp only [sortBySortDescriptors, sort, descLess_eq_lexLt]
+  exact ⟨sortBy_perm _ l, sortBy_pairwise (lexLt_strictWeak ds) l, sortBy_filter_equiv (lexLt_strictWeak ds) l⟩
+
+/-! ## (4) oracle = model: what `judge` accepts is exactly what `handle` answers -/
+
+/-- The judge's oracle evaluates the property's own statement on the observed id sequence
+    (permutation ∧ ordered by the comparator ∧ stable).  For a strict weak comparator it accepts an
+    observation iff it is the model's answer — so on `C` cases every model/implementation mismatch is a
+    violation of the property and there is nothing the judge could excuse. -/
+theorem C19_oracle_accepts_exactly_model {β : Type} {less : β → β → Bool} (h : StrictWeak less)
+    (recs : List β) (ids : List Nat) :
+    verdict less recs ids = "allowed ordered stable permutation" ↔ ids = modelIds less recs :=
+  (verdict_allowed_iff less recs ids).trans (acceptsB_iff h recs ids)
+
+/-- The same for descriptor (`D`) cases: the oracle orders by the SPEC (`lexLt ds` on the keys), the
+    model sorts with the mirrored `_compareBySortDescriptors`; they accept / produce the same sequence. -/
+theorem C19_oracle_desc (ds : List (Desc Rec)) (recs : List Rec) (ids : List Nat) :
+    verdict (lexLt ds) recs ids = "allowed ordered stable permutation" ↔
+      ids = (sortBySortDescriptors (ds.map liftDesc) (tag recs)).map (·.1) := by
+  rw [C19_oracle_accepts_exactly_model (lexLt_strictWeak ds), modelIds, sortBySortDescriptors, descLess_liftDesc]
+
+/-! ## non-vacuity -/
+
+/-- a well-formed caller slice that is a window of a larger array with an alias next to it -/
+example : (⟨0, 1, 2, 3⟩ : Slice).off + (⟨0, 1, 2, 3⟩ : Slice).len ≤ ((([[5, 3, 4, 1]] : Heap Nat)).getD 0 []).length := by
+  decide
+
+
+/-- a comparator with ties that is a strict weak order: parity -/
+example : StrictWeak (fun a b : Nat => decide (a % 2 < b % 2)) :=
+  ⟨fun a => by simp, fun a b c => by simp; omega, fun a b c => by simp; omega⟩
+
+/-- the theorems with a `StrictWeak` hypothesis apply to that comparator, to Go's `<` on ints and
+    strings, and to every descriptor comparator -/
+example (l : List Nat) := C19_sort_stable (less := fun a b : Nat => decide (a % 2 < b % 2))
+  ⟨fun a => by simp, fun a b c => by simp; omega, fun a b c => by simp; omega⟩ l
+example (l : List Int) := C19_sortOrdered_desc C19_natural_orders_strictWeak.1 l
+example (l : List (List Nat)) := C19_sortOrdered_desc C19_natural_orders_strictWeak.2.1 l
+example (ds : List (Desc Rec)) (l : List Rec) := C19_sort_unique (C19_desc_strictWeak ds) l
+example (recs : List Rec) (ids : List Nat) :=
+  C19_oracle_accepts_exactly_model (less := fun x y : Rec => decide (getA x % 2 < getA y % 2))
+    ⟨fun a => by simp, fun a b c => by simp; omega, fun a b c => by simp; omega⟩ recs ids
+
+/-- ties are really kept in input order, non-ties really move -/
+example : sortBy (fun a b : Nat => decide (a % 2 < b % 2)) [3, 2, 1, 4, 5] = [2, 4, 3, 1, 5] := by
+  simp [sortBy, List.mergeSort, List.MergeSort.Internal.splitInTwo]
+
+/-- the repository's own example (Age descending, then Name ascending): AB50 / AD30 / BC30 -/
+example :
+    let recs : List (Int × List Nat) := [(30, [66, 67]), (30, [65, 68]), (50, [65, 66])]
+    let ds : List (Desc (Int × List Nat)) :=
+      [⟨fun r => some (.oi r.1), false⟩, ⟨fun r => some (.cs r.2), true⟩]
+    (sortedListBySortDescriptors ds recs).1 = [(50, [65, 66]), (30, [65, 68]), (30, [66, 67])] := by
+  simp [sortedListBySortDescriptors_eq, descLess_eq_lexLt, sortBy, List.mergeSort,
+    List.MergeSort.Internal.splitInTwo, lexLt, Desc.keyLt, optLt, Key.lt, bytesLt]
+
+/-- nil keys come first for an ascending descriptor and ties among them are broken by the next one -/
+example :
+    let ds : List (Desc (Option Int × Int)) :=
+      [⟨fun r => r.1.map Key.oi, true⟩, ⟨fun r => some (.oi r.2), false⟩]
+    sortBySortDescriptors ds [(some 1, 0), (none, 1), (some 0, 5), (none, 2)] =
+      [(none, 2), (none, 1), (some 0, 5), (some 1, 0)] := by
+  simp [sortBySortDescriptors, sort, descLess_eq_lexLt, sortBy, List.mergeSort,
+    List.MergeSort.Internal.splitInTwo, lexLt, Desc.keyLt, optLt, Key.lt]
+
+end FpgoVerif.C19
